@@ -1,10 +1,10 @@
 (* AppSlots -- the theorems behind the app-side clauses of C01, C02, C03:
-   over ANY sequence of find_slots / release_slots / verify / Node.find_slot
-   calls of an application that gives back only what it holds, the oracle
+   over ANY sequence of find_slots / release_slots / verify / Node.find_slot /
+   Node.allocate_slot(checked, application-made slot) calls of an application that gives back only what it holds, the oracle
    clauses (Oracle.judge) hold after every call. *)
 From Coq Require Import ZArith List Bool String Lia.
 From RP Require Import Common.Eqb AppSlots.Model AppSlots.Oracle AppSlots.Lists AppSlots.NodeProofs
-                       AppSlots.Hang AppSlots.InvProofs.
+                       AppSlots.Hang AppSlots.InvProofs AppSlots.AllocProofs AppSlots.AllocInv.
 Import ListNotations.
 Open Scope Z_scope.
 
@@ -120,7 +120,8 @@ Definition op_ok (o : op) : Prop :=
   | OFind r _ => rr_ok r /\ 0 < r_co r
   | ONFind _ r => rr_ok r
   | ORelease _ | OVerify => True
-  | ONAlloc _ _ | ONDealloc _ _ => False
+  | ONAlloc _ s => slot_wf s         (* an application-made slot: non-negative indices, occupations, lfs, mem *)
+  | ONDealloc _ _ => False
   end.
 
 Definition all_true : verdict := mkV true true true true.
@@ -164,6 +165,16 @@ Proof.
       constructor; [|constructor]. exists n1. split; [eapply nth_error_In; exact Hk1 | eapply SlotFor_shape; eauto].
     + subst nd'. rewrite (upd_same _ _ _ Hk). split; [exact HI|].
       rewrite (Inv_nover _ _ _ HI), (Inv_account _ _ _ HI), nodes_eqb_refl. reflexivity.
+  - (* Node.allocate_slot(_check=True) with an application-made slot *)
+    unfold judge_step, all_true.
+    destruct (nth_error (nl_nodes nl) k) as [nd|] eqn:Hk.
+    2:{ injection Hs as <- <-. cbn [held_after]. split; [exact HI|].
+        rewrite (Inv_nover _ _ _ HI), (Inv_account _ _ _ HI). reflexivity. }
+    destruct (allocate_slot nd s) as [nd' [e|]] eqn:Ea; injection Hs as <- <-; cbn [held_after nl_nodes with_nodes].
+    + rewrite (inv_alloc_refused _ _ _ _ _ _ _ _ HI Hk Hok Ea). split; [exact HI|].
+      rewrite (Inv_nover _ _ _ HI), (Inv_account _ _ _ HI). reflexivity.
+    + pose proof (inv_alloc _ _ _ _ _ _ _ HI Hk Hok Ea) as HI'. split; [exact HI'|].
+      rewrite (Inv_nover _ _ _ HI'), (Inv_account _ _ _ HI'). reflexivity.
 Qed.
 
 (* ------------------------------------------------------------ any sequence *)
